@@ -386,6 +386,10 @@ def chunks(tier: str, seed: int, n: int) -> List[Dict[str, Any]]:
     from vlib.bc import progs
 
     allp = list(progs.corpus(tier, seed))
+    # as-target forms and layouts (incl. targets and with lines that need EXTENDED_ARG): the same programs C08 uses
+    from harness import c08 as _c08
+
+    allp += [p for p in _c08.target_corpus(tier) if not any((t or "") in _c08.UNSUPPORTED_TARGETS for t in p[0].get("targets", []))]
     stride = int(os.environ.get("VERIF_CORPUS_STRIDE", "1") or 1)
     allp = allp[seed % stride::stride]
     out = [{"name": f"chunk{k}", "programs": allp[k::n]} for k in range(n)]
